@@ -91,6 +91,36 @@ macro_rules! dim_checks {
                     let af: &[S; $n * $n] = a.as_ref();
                     ensure_eq!(*af, flat, "as_ref-flat-array", "AsRef<[S; n*n]> is column-major");
                 }
+                // the accessors that take an element's address take it as (column, row), and a column / row by its index
+                for c1 in 0..n {
+                    for r1 in 0..n {
+                        for c2 in 0..n {
+                            for r2 in 0..n {
+                                let mut w = a;
+                                w.swap_elements((c1, r1), (c2, r2));
+                                let mut want = t.clone();
+                                let (x, y) = (want.e[c1][r1], want.e[c2][r2]);
+                                want.e[c1][r1] = y;
+                                want.e[c2][r2] = x;
+                                ensure_eq!(w.rm(), want, "swap_elements-address", "swap_elements(({},{}), ({},{})): elements are addressed as (column, row)", c1, r1, c2, r2);
+                            }
+                        }
+                    }
+                }
+                for i in 0..n {
+                    for j in 0..n {
+                        let mut w = a;
+                        w.swap_columns(i, j);
+                        ensure_eq!(w.rm(), RM::from_fn(n, |c, r| t.e[if c == i { j } else if c == j { i } else { c }][r]), "swap_columns-address", "swap_columns({},{})", i, j);
+                        let mut w = a;
+                        w.swap_rows(i, j);
+                        ensure_eq!(w.rm(), RM::from_fn(n, |c, r| t.e[c][if r == i { j } else if r == j { i } else { r }]), "swap_rows-address", "swap_rows({},{})", i, j);
+                    }
+                    let mut w = a;
+                    let old = w.replace_col(i, a[(i + 1) % n]);
+                    ensure_eq!($va(old).to_vec(), t.e[i][..n].to_vec(), "replace_col-returns-old", "replace_col({}, ..) returns the old column", i);
+                    ensure_eq!(w.rm(), RM::from_fn(n, |c, r| t.e[if c == i { (i + 1) % n } else { c }][r]), "replace_col-address", "replace_col({}, column {})", i, (i + 1) % n);
+                }
                 let (c, nt) = classify(&[&t]);
                 pass(c, nt)
             }
@@ -483,12 +513,12 @@ pub fn property() -> Property {
         ($m:ident, $tag:expr) => {
             s.push(sc!(concat!("layout-", $tag, "-Q"), "Q", $m::layout::<Q>, 3000, 200_000, 64, REQ, RULE));
             s.push(sc!(concat!("layout-", $tag, "-Fp"), "Fp", $m::layout::<Fp>, 3000, 200_000, 64, &[], RULE));
-            s.push(sc!(concat!("mul_vec-", $tag, "-Q"), "Q", $m::mul_vec::<Q>, 3000, 200_000, 80, REQ, RULE));
-            s.push(sc!(concat!("mul_vec-", $tag, "-Fp"), "Fp", $m::mul_vec::<Fp>, 3000, 200_000, 80, &[], RULE));
+            s.push(sc!(concat!("mul_vec-", $tag, "-Q"), "Q", $m::mul_vec::<Q>, 3000, 200_000, 112, REQ, RULE));
+            s.push(sc!(concat!("mul_vec-", $tag, "-Fp"), "Fp", $m::mul_vec::<Fp>, 3000, 200_000, 112, &[], RULE));
             s.push(sc!(concat!("mul_mat-", $tag, "-Q"), "Q", $m::mul_mat::<Q>, 3000, 200_000, 128, REQ, RULE));
             s.push(sc!(concat!("mul_mat-", $tag, "-Fp"), "Fp", $m::mul_mat::<Fp>, 3000, 200_000, 128, &[], RULE));
-            s.push(sc!(concat!("ring-", $tag, "-Q"), "Q", $m::ring::<Q>, 2000, 100_000, 224, &[], RULE));
-            s.push(sc!(concat!("ring-", $tag, "-Fp"), "Fp", $m::ring::<Fp>, 2000, 100_000, 224, &[], RULE));
+            s.push(sc!(concat!("ring-", $tag, "-Q"), "Q", $m::ring::<Q>, 2000, 100_000, 288, &[], RULE));
+            s.push(sc!(concat!("ring-", $tag, "-Fp"), "Fp", $m::ring::<Fp>, 2000, 100_000, 288, &[], RULE));
             s.push(sc!(concat!("diag_ctors-", $tag, "-Q"), "Q", $m::diag_ctors::<Q>, 1000, 50_000, 32, &[], "diagonal entries non-zero and pairwise distinct"));
         };
     }
